@@ -305,7 +305,7 @@ class FusionART(BaseART):
                     self.modules[k].params,
                 )
                 if k not in skip_channels
-                else (1.0, dict())
+                else (0.0, dict())
                 for k in range(self.n)
             ]
         )
